@@ -325,7 +325,9 @@ def compile_source(s, avx, strict, export_static):
         text2, nrw = _LOCAL_STATIC_CONST.subn(r"\1const ", text)
         if nrw:
             REWRITE_COUNTS[s] = nrw
-            src = os.path.join(SRC_CACHE, key + ".rewritten.c")
+            # same base name as the original (goto-cc mangles file-local symbols with the file name)
+            os.makedirs(os.path.join(SRC_CACHE, key + ".d"), exist_ok=True)
+            src = os.path.join(SRC_CACHE, key + ".d", os.path.basename(s))
             open(src, "w").write(text2)
         cmd = ["goto-cc", "-c", src, "-o", out + ".tmp", "-DNDEBUG", "-D" + GUARD, "-I" + SRC, "-I" + os.path.dirname(os.path.join(SRC, s))]
         if avx:
